@@ -28,6 +28,7 @@ pub fn render(v: &Value) -> String {
     // no pattern: the rule's kinds are the parser's ERROR kind, whose number lies above every kind of the grammar
     "none_kind_error" => { rule.insert("kind".into(), json!("ERROR")); }
     "none_any_error" => { rule.insert("any".into(), json!([{"kind": "ERROR"}, {"kind": "number"}])); }
+    "adjacent_ellipses_open_list" => { rule.insert("pattern".into(), json!("switch ($X) { case $V:\n $$$A\n $$$B\n break }")); }
     _ => { rule.insert("pattern".into(), json!("foo(\"é🦀\", $A)")); }
   }
   match s(v, "kind").as_str() {
@@ -265,7 +266,7 @@ const TEXTS: [(&str, &str); 4] = [
   // captured texts that stress per-character work: upper/lower runs with multi-byte letters, title-case digraphs,
   // letters whose case mapping changes length, combining marks, separators at the edges
   ("d.js", "foo(ÉÀb); foo(XMLÉb); foo(ǅemal); foo(ßtraSSe); foo(İi̇I); foo(aB_c__D); foo(_); foo($x); foo(ÀÉ); foo(é); foo(x̃Ỹz); foo(ＡＢc); foo(\"ÉÀb-Çd_ÊF\"); foo(ab); foo(abc); foo(abcd); foo(\"\");\n"),
-  ("a.js", "foo(b1); foo(bar, 1); foo(\"é🦀\", [1, 2, 3]); [, 2, x]; foo([1, [2, 3]]);\nclass A { foo(q) {} }\nfoo(7); foo([8]);foo(9)\n"),
+  ("a.js", "foo(b1); foo(bar, 1); foo(\"é🦀\", [1, 2, 3]); [, 2, x]; foo([1, [2, 3]]);\nclass A { foo(q) {} }\nfoo(7); foo([8]);foo(9)\nswitch (q) { case 1: break; }\nswitch (r) { case 2: foo(2); bar(); break; }\n"),
   ("b.js", "foo(\nfoo(b"),
   ("c.js", ";"),
 ];
